@@ -222,3 +222,32 @@ Proof.
   rewrite !wenc_app, <- !wrapE_wire.
   apply relen_correct_nonempty; assumption.
 Qed.
+
+(* ---------------------------------------------------------------- the flagged transcription of updateByteLen
+   (ProtoEditCoded.relen_coded_g) with every repair flag off IS ProtoRelen.relen_coded, the loop of the pinned tree *)
+From DG Require Import ProtoEditCoded.
+
+Lemma relen_step_g_true b d a : relen_step_g true b d a = relen_step b d a.
+Proof.
+  unfold relen_step_g, relen_step.
+  destruct (varint_dec (skipn a b)) as [v tagOff].
+  destruct (varint_dec (skipn (Z.to_nat tagOff) (skipn a b))) as [len lenOff].
+  rewrite andb_true_r. reflexivity.
+Qed.
+
+Lemma relen_coded_step_g_old st a pt :
+  relen_coded_step_g no_fixes st (Z.of_nat a, pt) = relen_coded_step st (a, pt).
+Proof.
+  unfold relen_coded_step_g, relen_coded_step. cbn [fx_mapentry fx_emptied no_fixes andb orb].
+  rewrite Nat2Z.id, relen_step_g_true. rewrite orb_false_r.
+  destruct ((rs_prev st =? 1) || (rs_prev st =? 2) && rs_packed st); [|reflexivity].
+  destruct (relen_step (rs_buf st) (rs_diff st) a) as [[b' d'] ip]. cbn [negb]. rewrite andb_true_r. reflexivity.
+Qed.
+
+Theorem relen_coded_g_old b d pk lv :
+  relen_coded_g no_fixes b d pk (map (fun l => (Z.of_nat (fst l), snd l)) lv) = relen_coded b d pk lv.
+Proof.
+  unfold relen_coded_g, relen_coded. generalize (mk_rstate b d 0 pk) as st.
+  induction lv as [|[a pt] r IH]; intros st; [reflexivity|].
+  cbn [map fold_left fst snd]. rewrite relen_coded_step_g_old. apply IH.
+Qed.
